@@ -413,9 +413,220 @@ def replay(pid, case):
     return 0
 
 
+# ---------------------------------------------------------------- C14 (geodesic primitives)
+def unvec(v):
+    n = vnorm(v)
+    return (math.degrees(math.asin(max(-1.0, min(1.0, v[2] / n)))), math.degrees(math.atan2(v[1], v[0])))
+
+
+def sph_point_to_segment(w, p, q):
+    """independent spherical point-to-geodesic-segment: (distance, nearest point, relative position)"""
+    L = gc_dist(p, q)
+    if L == 0:
+        return gc_dist(w, p), p, 0.0
+    xt, at = gc_cross_along(w, p, q)
+    if at <= 0:
+        return gc_dist(w, p), p, 0.0
+    if at >= L:
+        return gc_dist(w, q), q, 1.0
+    a, b = vec(p), vec(q)
+    n = vcross(a, vsub(b, a))
+    nn = vnorm(n)
+    n = (n[0] / nn, n[1] / nn, n[2] / nn)
+    e = vcross(n, a)
+    th = at / R_EARTH
+    pt = (a[0] * math.cos(th) + e[0] * math.sin(th), a[1] * math.cos(th) + e[1] * math.sin(th),
+          a[2] * math.cos(th) + e[2] * math.sin(th))
+    return xt, unvec(pt), at / L
+
+
+def sph_seg_intersect(p1, p2, q1, q2):
+    a1, a2, b1, b2 = vec(p1), vec(p2), vec(q1), vec(q2)
+    n1, n2 = vcross(a1, vsub(a2, a1)), vcross(b1, vsub(b2, b1))
+    s1, s2 = vdot(n2, vsub(a1, b1)), vdot(n2, vsub(a2, b1))
+    s3, s4 = vdot(n1, vsub(b1, a1)), vdot(n1, vsub(b2, a1))
+    return s1 * s2 < 0 and s3 * s4 < 0
+
+
+def sph_seg_to_seg(p1, p2, q1, q2):
+    if sph_seg_intersect(p1, p2, q1, q2):
+        return 0.0
+    return min(sph_point_to_segment(q1, p1, p2)[0], sph_point_to_segment(q2, p1, p2)[0],
+               sph_point_to_segment(p1, q1, q2)[0], sph_point_to_segment(p2, q1, q2)[0])
+
+
+def c14_pt_case(dl, case, s, anchor):
+    p, a, b = (tangent_place(q, s, anchor) for q in case['c'])
+    ext = 8 * s
+    tolp = 0.5 + 2 * ext * ext / R_EARTH
+    told = 0.2 + 2 * ext * ext / R_EARTH
+    try:
+        d, pi, ti = dl.distance_point_to_segment(p, a, b)
+        d2, pi2, ti2 = dl.distance_point_to_segment(p, b, a)
+    except Exception as ex:
+        return 'distance_point_to_segment raised ' + repr(ex), None
+    ed, epi, et = sph_point_to_segment(p, a, b)
+    L = gc_dist(a, b)
+    if abs(d - ed) > told:
+        return f'distance {d!r} m differs from the spherical distance {ed!r} m', (d, pi, ti)
+    if gc_dist(pi, epi) > tolp:
+        return f'projection point is {gc_dist(pi, epi)!r} m away from the nearest point of the segment', (d, pi, ti)
+    if not (-1e-12 <= ti <= 1 + 1e-12) or abs(ti - et) * L > tolp:
+        return f'relative position {ti!r} differs from {et!r}', (d, pi, ti)
+    # clamping decided on cases that are not knife-edges (exact case from the specification)
+    if case['cls'] == 'before' and ti != 0.0:
+        return f'point projects before the segment (exact case) but relative position is {ti!r}', (d, pi, ti)
+    if case['cls'] == 'after' and ti != 1.0:
+        return f'point projects after the segment (exact case) but relative position is {ti!r}', (d, pi, ti)
+    # invariance under swapping the end points
+    if abs(d - d2) > told or gc_dist(pi, pi2) > tolp or abs((1 - ti2) - ti) * L > tolp:
+        return f'not invariant under swapping the end points: {(d, pi, ti)} vs {(d2, pi2, ti2)}', (d, pi, ti)
+    return None
+
+
+def c14_seg_case(dl, case, s, anchor):
+    a, b, c, d = (tangent_place(q, s, anchor) for q in case['c'])
+    ext = 8 * s
+    tolp = 0.5 + 2 * ext * ext / R_EARTH
+    told = 0.2 + 3 * ext * ext / R_EARTH      # the library's local frame adds ~ext^2 tan(lat)/R
+    try:
+        dd, pf, pt, uf, ut = dl.distance_segment_to_segment(a, b, c, d)
+    except Exception as ex:
+        return 'distance_segment_to_segment raised ' + repr(ex), None
+    ed = sph_seg_to_seg(a, b, c, d)
+    if abs(dd - ed) > told:
+        return f'distance {dd!r} m differs from the spherical segment distance {ed!r} m', (dd, pf, pt, uf, ut)
+    if not (-1e-12 <= uf <= 1 + 1e-12 and -1e-12 <= ut <= 1 + 1e-12):
+        return f'relative positions outside [0,1]: {uf}, {ut}', (dd, pf, pt, uf, ut)
+    # witnesses on their segments at the reported relative positions, and realising the distance
+    for (w, u, p, q) in ((pf, uf, a, b), (pt, ut, c, d)):
+        L = gc_dist(p, q)
+        xt, at = gc_cross_along(w, p, q)
+        if L > 0 and (xt > tolp or abs(at - u * L) > tolp):
+            return f'witness {w} is not at relative position {u!r} of its segment (cross {xt}, along {at} of {L})', (dd, pf, pt, uf, ut)
+        if L == 0 and gc_dist(w, p) > tolp:
+            return f'witness {w} not on the zero-length segment', (dd, pf, pt, uf, ut)
+    if abs(gc_dist(pf, pt) - dd) > told + tolp:
+        return f'witness points are {gc_dist(pf, pt)!r} m apart, reported distance {dd!r}', (dd, pf, pt, uf, ut)
+    return None
+
+
+def c14_box(dl, p, r, nb):
+    """every point within r of p (sampled just inside the circle, all bearings + the analytic extremes) is in the box"""
+    lat_b, lon_l, lat_t, lon_r = dl.box_around_point(p, r)
+    a = vec(p)
+    # local east / north unit vectors
+    east = (-math.sin(math.radians(p[1])), math.cos(math.radians(p[1])), 0.0)
+    north = vcross(a, east)
+    th = (r - max(r * 1e-9, 1e-6)) / R_EARTH        # just inside the circle: one micrometre / 1e-9 relative
+    for k in range(nb):
+        be = 2 * math.pi * k / nb
+        dirv = tuple(north[i] * math.cos(be) + east[i] * math.sin(be) for i in range(3))
+        q = unvec(tuple(a[i] * math.cos(th) + dirv[i] * math.sin(th) for i in range(3)))
+        if not (lat_b <= q[0] <= lat_t and lon_l <= q[1] <= lon_r):
+            return f'point {q} at {gc_dist(p, q)!r} m <= {r} m from {p} (bearing {math.degrees(be):.2f}) lies outside the box {(lat_b, lon_l, lat_t, lon_r)}'
+    return None
+
+
 def run_c14(chk):
-    raise common.MachineryError('C14 not built yet')
+    from leuvenmapmatching.util import dist_latlon as dl
+    thorough = chk.tier == 'thorough'
+    rng = random.Random(chk.seed + 14)
+    chk.rule('point+segment and segment-pair cases enumerated by TLC (exact case: before / inside / after, crossing / '
+             'touching / parallel / collinear / zero-length / apart) are placed on the sphere at several anchors and '
+             'scales (segments from decimetres to kilometres) and compared with an independent 3-D vector computation; '
+             'clamping is decided on the exact non-knife-edge cases; swap invariance; distance vs vector great-circle '
+             'distance and destination(distance, bearing) round trips on random point pairs from 0.1 m to 5000 km; '
+             'box containment on circles from 1 m to 500 km up to latitude 80; non-trivial = degenerate / clamped class')
+    chk.assume('tolerance budget: positions 0.5 m + 2 ext^2/R, distances 0.2 m + 2..3 ext^2/R (ext = 8 grid units); '
+               'the library\'s acos-based along-track formula has a resolution of about 0.1 m')
+    chk.assume('latitudes <= 80 degrees for the box, <= 60 for segments; longitudes at least 0.5 degree from the antimeridian')
+    rp = run_tlc_parts('GeoMC', 'GeoMC_pt3.cfg', nparts=16, timeout=3000)
+    chk.tlc(rp, 'point+segment cases with exact ProjCase')
+    rs = run_tlc_parts('GeoMC', 'GeoMC_seg3.cfg' if thorough else 'GeoMC_seg2.cfg', nparts=16, timeout=3000)
+    chk.tlc(rs, 'segment pairs with exact class')
+    scales = [0.05, 0.4, 3.0, 25.0, 250.0]
+    ev = nt = 0
+    for ci, case in enumerate(rp.json):
+        if case['cls'] in ('at0', 'at1'):
+            continue
+        for rep in range(2 if thorough else 1):
+            s, anchor = rng.choice(scales), rng.choice(ANCHORS)
+            bad = c14_pt_case(dl, case, s, anchor)
+            ev += 1
+            nt += case['cls'] != 'inside'
+            if bad:
+                chk.violation('lat-lon point-to-segment: ' + bad[0], {'kind': 'll_pt', 'case': case, 's': s, 'anchor': list(anchor), 'got': bad[1]},
+                              sig={'site': 'dist_latlon.distance_point_to_segment', 'cls': case['cls']})
+    chk.count('ll_pt', evaluations=ev, nontrivial=nt, traces=ev)
+    ev = nt = 0
+    for ci, case in enumerate(rs.json):
+        if not thorough and ci % 2:
+            continue
+        s, anchor = rng.choice(scales), rng.choice(ANCHORS)
+        bad = c14_seg_case(dl, case, s, anchor)
+        ev += 1
+        nt += case['cls'] != 'apart'
+        if bad:
+            chk.violation('lat-lon segment-to-segment: ' + bad[0], {'kind': 'll_seg', 'case': case, 's': s, 'anchor': list(anchor), 'got': bad[1]},
+                          sig={'site': 'dist_latlon.distance_segment_to_segment', 'cls': case['cls']})
+    chk.count('ll_seg', evaluations=ev, nontrivial=nt, traces=ev)
+    chk.sample({'kind': 'll_seg', 'case': rs.json[len(rs.json) // 3], 'anchor': list(ANCHORS[0]), 's': 25.0})
+    # distance / bearing / destination on random pairs
+    n = 20000 if thorough else 4000
+    for i in range(n):
+        lat = rng.uniform(-75, 75)
+        lon = rng.uniform(-170, 170)
+        dist = 10 ** rng.uniform(-1, 6.7)
+        be = rng.uniform(-math.pi, math.pi)
+        la2, lo2 = dl.destination_radians(math.radians(lat), math.radians(lon), be, dist)
+        q = (math.degrees(la2), math.degrees(lo2))
+        p = (lat, lon)
+        if abs(q[0]) > 85 or abs(q[1]) > 179.5:
+            continue
+        d = dl.distance(p, q)
+        e = gc_dist(p, q)
+        tol = 1e-6 + 1e-9 * e
+        what = None
+        if abs(d - e) > tol:
+            what = f'distance {d!r} differs from the great-circle distance {e!r}'
+        elif abs(d - dist) > 1e-5 + 1e-9 * dist:
+            what = f'destination does not invert distance: asked {dist!r}, distance to the result is {d!r}'
+        else:
+            b2 = dl.bearing_radians(math.radians(lat), math.radians(lon), la2, lo2)
+            la3, lo3 = dl.destination_radians(math.radians(lat), math.radians(lon), b2, d)
+            back = gc_dist(q, (math.degrees(la3), math.degrees(lo3)))
+            if back > 1e-4 + 1e-9 * dist:
+                what = f'destination(distance, bearing) misses the target by {back!r} m'
+            elif abs(dl.distance(q, p) - d) > tol:
+                what = 'distance is not symmetric'
+        if what:
+            chk.violation('lat-lon distance / destination: ' + what, {'kind': 'll_dist', 'p': list(p), 'dist': dist, 'bearing': be},
+                          sig={'site': 'dist_latlon.distance'})
+    chk.count('ll_dist', evaluations=n, nontrivial=n, traces=n)
+    nb = 0
+    for i in range(4000 if thorough else 800):
+        lat = rng.choice([rng.uniform(-80, 80), rng.uniform(55, 80), rng.uniform(-80, -55)])
+        lon = rng.uniform(-150, 150)
+        r = 10 ** rng.uniform(0, 5.7)
+        if abs(lat) + math.degrees(r / R_EARTH) > 88:
+            continue
+        bad = c14_box(dl, (lat, lon), r, 72)
+        nb += 1
+        if bad:
+            chk.violation('lat-lon box_around_point: ' + bad, {'kind': 'll_box', 'p': [lat, lon], 'r': r},
+                          sig={'site': 'dist_latlon.box_around_point'})
+    chk.count('ll_box', evaluations=nb, nontrivial=nb, traces=nb)
 
 
 def replay_c14(case):
-    raise common.MachineryError('C14 not built yet')
+    from leuvenmapmatching.util import dist_latlon as dl
+    c = case['case']
+    if c['kind'] == 'll_pt':
+        return c14_pt_case(dl, c['case'], c['s'], tuple(c['anchor']))
+    if c['kind'] == 'll_seg':
+        return c14_seg_case(dl, c['case'], c['s'], tuple(c['anchor']))
+    if c['kind'] == 'll_box':
+        b = c14_box(dl, tuple(c['p']), c['r'], 72)
+        return (b, None) if b else None
+    return None
